@@ -305,3 +305,149 @@ def helper_spec(eng, fr, node):
         spec["_fn"] = fn
         spec["_followed"] = True
     return spec, ob
+
+
+# ======================================================================================= (2) nested carriers that moved
+MOVED: dict[str, dict] = {}  # carrier key -> what the contract of the vanished nested function was verified on
+
+
+def _free_names(fn):
+    bound = align.local_names(fn, True)
+    return {x.id for x in ast.walk(fn) if isinstance(x, ast.Name) and isinstance(x.ctx, ast.Load) and x.id not in bound}
+
+
+def _callees(fn):
+    out = set()
+    for x in ast.walk(fn):
+        if isinstance(x, ast.Call):
+            if isinstance(x.func, ast.Name):
+                out.add(x.func.id)
+            elif isinstance(x.func, ast.Attribute) and isinstance(x.func.value, ast.Name) and x.func.value.id in ("self", "cls"):
+                out.add(x.func.attr)
+    return out
+
+
+def _bindings(outer, name):
+    """every place where `name` is bound inside `outer`: [(kind, node, path info)]"""
+    out = []
+    for x in ast.walk(outer):
+        if isinstance(x, ast.Assign):
+            for t in x.targets:
+                if isinstance(t, ast.Name) and t.id == name:
+                    out.append(("assign", x, None))
+                elif any(isinstance(y, ast.Name) and y.id == name for y in ast.walk(t)):
+                    out.append(("other", x, None))
+        elif isinstance(x, (ast.AnnAssign, ast.AugAssign, ast.NamedExpr)) and isinstance(x.target, ast.Name) and x.target.id == name:
+            out.append(("assign", x, None) if isinstance(x, ast.AnnAssign) and x.value is not None else ("other", x, None))
+        elif isinstance(x, (ast.comprehension, ast.For)):
+            t = x.target
+            if isinstance(t, ast.Name) and t.id == name:
+                out.append(("other", x, None))
+            elif isinstance(t, ast.Tuple) and all(isinstance(e, ast.Name) for e in t.elts) and name in [e.id for e in t.elts]:
+                out.append(("unpack", x, [e.id for e in t.elts].index(name)))
+            elif any(isinstance(y, ast.Name) and y.id == name for y in ast.walk(t)):
+                out.append(("other", x, None))
+        elif isinstance(x, ast.arg) and x.arg == name:
+            out.append(("other", x, None))
+        elif isinstance(x, (ast.FunctionDef, ast.AsyncFunctionDef)) and x is not outer and x.name == name:
+            out.append(("other", x, None))
+    return out
+
+
+def _definition(outer, name):
+    """the expression a singly-bound local of `outer` stands for, over names that are in scope where it is used; None if unknown"""
+    b = _bindings(outer, name)
+    if len(b) != 1:
+        return None
+    kind, node, j = b[0]
+    if kind == "assign":
+        return copy.deepcopy(node.value)
+    if kind != "unpack":
+        return None
+    it = node.iter
+    if isinstance(it, ast.Name):
+        bb = _bindings(outer, it.id)
+        if len(bb) != 1 or bb[0][0] != "assign":
+            return None
+        it = bb[0][1].value
+    if not isinstance(it, (ast.ListComp, ast.GeneratorExp)) or len(it.generators) != 1 or it.generators[0].ifs:
+        return None
+    elt, gen = it.elt, it.generators[0]
+    if not isinstance(elt, ast.Tuple) or len(elt.elts) != len(node.target.elts):
+        return None
+    inner_t = {y.id for y in ast.walk(gen.target) if isinstance(y, ast.Name)}
+    ren = {}
+    for e, t in zip(elt.elts, node.target.elts):  # a component that IS a variable of the comprehension is the unpacked name at that position
+        if isinstance(e, ast.Name) and e.id in inner_t:
+            ren[e.id] = t.id
+    expr = copy.deepcopy(elt.elts[j])
+    for y in ast.walk(expr):
+        if isinstance(y, ast.Name):
+            if y.id in ren:
+                y.id = ren[y.id]
+            elif y.id in inner_t:
+                return None
+    return expr
+
+
+def moved_nested(key, src, mod, outer, part):
+    """`outer.<locals>.part` is gone.  If `outer` now calls a function of the module (one it did not call in the baseline text) that
+    resembles the baseline text of `part`, return (synthesised FunctionDef, source segment) of
+        def part(<baseline parameters>): return <that function>(<the arguments `outer` passes, over part's parameters / closure names>)
+    so that the contract of `part` is verified on the function that took its place (inlined from the repository AST).  Otherwise
+    raise KeyError saying what was tried."""
+    missing = f"carrier not found: {key} (missing '{part}'"
+    base = baseline_fn(key)
+    relpath = key.split(":")[0]
+    outer_key = key[: key.index(".<locals>." + part)] if (".<locals>." + part) in key else None
+    base_outer = baseline_fn(outer_key) if outer_key else None
+    if base is None:
+        raise KeyError(missing + ")")
+    old_calls = _callees(base_outer) if base_outer is not None else set()
+    defs = {}
+    for st in ast.walk(mod):
+        if isinstance(st, (ast.FunctionDef, ast.AsyncFunctionDef)) and st is not outer:
+            defs.setdefault(st.name, st)
+    cands = [defs[n] for n in sorted(_callees(outer) - old_calls) if n in defs and n != part]
+    if not cands:
+        raise KeyError(missing + f"; {outer.name} calls no new function of the module that could have taken its place)")
+    bl = align.local_names(base, True)
+    scored = sorted(((_ratio(_toks(ast.Module(body=base.body, type_ignores=[]), bl), _toks(ast.Module(body=c.body, type_ignores=[]), align.local_names(c, True))), c) for c in cands),
+                    key=lambda t: -t[0])
+    score, cand = scored[0]
+    tried = f"tried `{cand.name}` (called by {outer.name}, similarity {score:.2f} with the baseline text of {part})"
+    if score < 0.25:
+        raise KeyError(missing + "; " + tried + ": too different)")
+    sites = [c for c, _ in _call_sites(outer, cand.name)]
+    if not sites or any(ast.dump(s) != ast.dump(sites[0]) for s in sites[1:]):
+        raise KeyError(missing + "; " + tried + ": no single call site)")
+    call = copy.deepcopy(sites[0])
+    allowed = align._own_params(base) | _free_names(base)
+    outer_locals = align.local_names(outer, True)
+    for _ in range(6):
+        todo = sorted({x.id for x in ast.walk(call) if isinstance(x, ast.Name) and isinstance(x.ctx, ast.Load) and x.id not in allowed and x.id in outer_locals})
+        if not todo:
+            break
+        for nm in todo:
+            d = _definition(outer, nm)
+            if d is None:
+                raise KeyError(missing + "; " + tried + f": the argument `{nm}` of the call cannot be expressed over the parameters and closure variables of {part})")
+
+            class Sub(ast.NodeTransformer):
+                def visit_Name(self, x):
+                    return copy.deepcopy(d) if x.id == nm and isinstance(x.ctx, ast.Load) else x
+
+            call = Sub().visit(call)
+    else:
+        raise KeyError(missing + "; " + tried + ": argument definitions too deep)")
+    wrapper = ast.FunctionDef(name=part, args=copy.deepcopy(base.args), body=[ast.Return(value=call)], decorator_list=[], returns=None, type_comment=None)
+    if hasattr(ast, "TypeVar"):
+        wrapper.type_params = []
+    for a in ast.walk(wrapper.args):
+        if isinstance(a, ast.arg):
+            a.annotation = None
+    ast.copy_location(wrapper, cand)
+    ast.fix_missing_locations(wrapper)
+    seg = ast.unparse(wrapper) + "\n# verified on:\n" + (ast.get_source_segment(src, cand) or "")
+    MOVED[key] = dict(function=relpath + ":" + cand.name, similarity=round(score, 2), wrapper=ast.unparse(wrapper))
+    return wrapper, seg
